@@ -1,20 +1,46 @@
-import Taskpool.Inv.Seal
-import Taskpool.Inv.GoodInv
-import Taskpool.Inv.WantWalk2
--- TEMPORARY STUB (not committed): statements the walk delivers
+import Taskpool.Inv.SealWalk2
+/-! **A pending `gather_and_close()` seals the pool — the walk, part 3: the theorems.**  `Pool.Seal` (`Inv/Seal.lean`) holds
+initially and is preserved by every external operation other than `unlock()` (without `unlock()` in the user code handed
+over), by every handle of the event loop, and by the bookkeeping between two steps.
+
+* `Inv/SealWalk1.lean` — the frame relation `PStep`/`PS` and the steps of the machine that are instances of it;
+* `Inv/SealWalk2.lean` — the walking predicate `SK`, `sk_step`, the spawner steps, `gather_and_close`. -/
 namespace Taskpool
 namespace Pool
-theorem seal_init (cap : Cap) (simple : Option SpawnSpec) (h : mkNoUnlock simple = true) : Seal (Pool.init cap simple) := sorry
 
+/-! ### the theorems -/
+
+theorem seal_init (cap : Cap) (simple : Option SpawnSpec) (h : mkNoUnlock simple = true) : Seal (Pool.init cap simple) where
+  fr := fun m r hp => by simp [Pool.init] at hp
+  lk := fun a A hp => by simp [Pool.init] at hp
+  g1 := fun a A g hp => by simp [Pool.init] at hp
+  g2 := fun a A g hp => by simp [Pool.init] at hp
+  nh := ⟨by
+    cases simple with
+    | none => rfl
+    | some sp => exact h, fun m r hp => by simp [Pool.init] at hp⟩
+
+set_option linter.unusedVariables false in
 theorem seal_applyOp {cap : Cap} (p : Pool) (o : Op) (ho : o.noUnlock = true)
-    (hg : Good cap true false p) (hw : Want p) (hs : Seal p) : Seal (p.applyOp o).1 := sorry
+    (hg : Good cap true false p) (hw : Want p) (hs : Seal p) : Seal (p.applyOp o).1 :=
+  (sk_ps (sk_of_seal hs) (ps_applyOp p o ho)).seal
 
+set_option linter.unusedVariables false in
 theorem seal_runRef {cap : Cap} (p : Pool) (r : Ref)
     (hg : Good cap true false p) (hw : Want p) (hs : Seal p) (h0 : p.SpawnersWaited)
     (h1 : ∀ a re, ((p.modApi a fun x => { x with sched := false }).gacStage1Pre a re).1.SpawnersWaited) :
-    Seal (p.runRef r) := sorry
+    Seal (p.runRef r) := by
+  cases r with
+  | task t => exact (sk_ps (sk_of_seal hs) (ps_stepTask p t)).seal
+  | spawner m => exact (sk_stepMeta (sk_of_seal hs) hw m).seal
+  | api a => exact (sk_stepApi (sk_of_seal hs) a h0 h1).seal
+  | gchild g i => exact (sk_step (sk_of_seal hs) (pstep_gatherChildDone p g i true)).seal
 
-theorem seal_orders (p : Pool) (orders : List (List Nat)) (hs : Seal p) : Seal { p with orders := orders } := sorry
-theorem seal_drain (p : Pool) (hs : Seal p) : Seal { p with emit := [] } := sorry
+theorem seal_orders (p : Pool) (orders : List (List Nat)) (hs : Seal p) : Seal { p with orders := orders } :=
+  (sk_step (sk_of_seal hs) (pstep_of_eq p _)).seal
+
+theorem seal_drain (p : Pool) (hs : Seal p) : Seal { p with emit := [] } :=
+  (sk_step (sk_of_seal hs) (pstep_of_eq p _)).seal
+
 end Pool
 end Taskpool
